@@ -668,6 +668,23 @@ void c12_case(Ctx& c, Rng& r) {
             if (k2 && k2b && *k2 != *k2b) c.violation("C12:node:session-keys-differ", J().kv("second_pair", true).str());
         }
     }
+    // the same peer id comes back with another identity key (restart without a fixed seed) and handshakes with the node that
+    // already knows it under the old key: the node must end up on the key derived from the key presented now
+    if (A2.public_identity() != A.public_identity()) {
+        const auto wa4 = A2.generate_handshake_work(idb);
+        const auto wb4 = B.generate_handshake_work(ida);
+        if (wa4 && wb4) {
+            const bool okB4 = B.perform_handshake(ida, A2.public_identity(), *wa4);
+            const bool okA4 = A2.perform_handshake(idb, B.public_identity(), *wb4);
+            c.note("node.handshakes-after-identity-change");
+            if (!okA4 || !okB4) c.violation("C12:node:valid-handshake-rejected", J().kv("okA", okA4).kv("okB", okB4).kv("after_identity_change", true).str());
+            else {
+                const auto k4a = A2.session_key(idb), k4b = B.session_key(ida);
+                if (!k4a || !k4b) c.violation("C12:node:no-session-key", J().kv("after_identity_change", true).str());
+                else if (*k4a != *k4b) c.violation("C12:node:session-keys-differ", J().kv("after_identity_change", true).kv("seedA", *ca.identity_seed).kv("seedA2", *ca2.identity_seed).str());
+            }
+        }
+    }
     // refused public values
     for (auto v : {0u, 1u, p, p + 1u, 0xffffffffu}) {
         Node V(ida, ca);
